@@ -85,16 +85,30 @@ class SQLImpl:
         gone = before - after
         return out, reason, gone, after - before
 
-    def gc(self, now, collector=None):
-        """one pass at `now`; `collector` = a long-lived QueryGarbageCollector to reuse (as the running relay does)"""
+    def gc(self, now, collector=None, overlap=False):
+        """one pass at `now`; `collector` = a long-lived QueryGarbageCollector to reuse (as the running relay does);
+        `overlap` = the pass runs while another user of the database (a REQ that is still streaming its rows) holds a
+        pooled connection, as it does in a running relay"""
+        import sqlalchemy as sa
+
         db = self.db
         orig = db.time
         db.time = lambda: now
 
         async def go():
             gc = collector or db.QueryGarbageCollector(self.storage)
-            async with self.storage.db.begin() as conn:
-                return await gc.collect(conn)
+            if not overlap:
+                async with self.storage.db.begin() as conn:
+                    return await gc.collect(conn)
+            async with self.storage.db.connect() as reader:
+                rows = await reader.stream(sa.text("SELECT id FROM events"))
+                async for _ in rows:
+                    break                      # one row taken, the cursor stays open
+                try:
+                    async with self.storage.db.begin() as conn:
+                        return await gc.collect(conn)
+                finally:
+                    await rows.close()
         try:
             return self.run(go())
         finally:
